@@ -64,9 +64,22 @@ func configs(quick bool) []Cfg {
 		Signals: both, Init: []string{"100", "m"},
 		Tokens:  [][]string{{"100", "105", "m"}, {"m", "100"}},
 		Trigger: true, Dts: []int64{1, 2}, Depth: 5}
+	// 7. deposits: withdrawals that keep the deposit >= min (12 -> 11 -> 10) and that take it below (-> 9),
+	//    re-deposit and re-activation, with due and not-due blocks after each.
+	dpo := Cfg{Name: "deposits", Group: true, InitDE: 10,
+		Tunnels: []TunnelCfg{{Route: "tss", Signals: sigs(100, 300, 300, 300), Interval: 2, Balance: 8 * tssTotal, Deposit: minDeposit + 2}},
+		Signals: both, Init: []string{"100", "100"},
+		Tokens:   [][]string{{"100"}, {"100"}},
+		Deposits: []int64{1, 3}, DepCap: minDeposit + 3, Toggle: true,
+		Dts: []int64{1, 2}, Depth: 6}
 	if quick {
-		return []Cfg{dev, itv, fund, fundBase, non, nog, mix}
+		return []Cfg{dev, itv, fund, fundBase, non, nog, mix, dpo}
 	}
+	d2 := dpo
+	d2.Tokens = [][]string{{"100", "105"}, {"100"}}
+	d2.Trigger = true
+	d2.Depth = 7
+	out = append(out, d2)
 	// thorough: larger alphabets, deeper, and the soft/hard/interval variants of the design;
 	// cheap configurations first, so that an internal time cap cuts the large ones only
 	n2 := non
